@@ -12,7 +12,7 @@ from vplib import sexpr
 
 MANIFEST = dict(
     category="proof",
-    text="Coq theorems tailcall_constant_space / per_function_bounds / run_sound: in any program the bytecode verifier accepts, every tail call (`^`, `^f`, `^~`) leaves the frame count unchanged and re-enters the callee at pc 0 on the same operand-stack base and locals base with only the callee's captures as locals, on every execution; so the n-th re-entry has the configuration of the first. The verifier (which demands the exact call shape at every tail call) is run on all compiled functions; tail-recursive shapes are measured on the real VM at N and 50N (frames, locals, stack, heap slots).",
+    text="Coq theorems tailcall_constant_space / per_function_bounds / run_sound: in any program the bytecode verifier accepts, every tail call (`^`, `^f`, `^~`) leaves the frame count unchanged and re-enters the callee at pc 0 on the same operand-stack base and locals base with only the callee's captures as locals, on every execution; so the n-th re-entry has the configuration of the first; run_space_bound (global form): in every state a verified program reaches from a spawn, operand stack <= #frames x Hmax and locals <= #frames x Lmax with Hmax/Lmax the verifier's per-point maxima, and a tail call never adds a frame (tailcall_keeps_frame_count) - space depends on the depth of pending non-tail calls only, never on the number of tail-call iterations (checked against the real executor's profiled peaks on every measured run). The verifier (which demands the exact call shape at every tail call) is run on all compiled functions; tail-recursive shapes are measured on the real VM at N and 50N (frames, locals, stack, heap slots).",
     design_ref="§5 C16",
     note="Trusted as C07. Reclamation of binaries dropped by an iteration is measured on the real VM here (heap slots at N vs 50N) and is the subject of C06's model; the theorem part covers frames, locals and operand stack.",
     technique="Coq proof over the verified-bytecode invariant + translation validation + measured space on the real VM at N and 50N",
@@ -101,6 +101,29 @@ def run(ctx):
                                "source": src, "verdict": v[:400]}, no_input=True)
             else:
                 tv_ok += 1
+        # the global theorem C16_run_space_bound, evaluated on the real runs: at every moment
+        # |stack| <= #frames * Hmax and |locals| <= #frames * Lmax, hence the same between the peaks the
+        # executor's profiler recorded, with Hmax / Lmax as the extracted verifier computed them
+        bounds = {}
+        for (name, _), c, v in zip(SHAPES, comp, ver):
+            m = re.search(r"\(as-compiled ok (\d+) (\d+) (\d+) (\d+)\)", v)
+            if m:
+                bounds[name] = (int(m.group(3)), int(m.group(4)))
+        bound_checked = bound_failed = 0
+        for (name, n, mm), o in zip(meta, out):
+            if name not in bounds or not o.startswith("(space (ok"):
+                continue
+            pk = {k: int(x) for k, x in re.findall(r"\((stack|locals|frames) (\d+)\)", o)}
+            hmax, lmax = bounds[name]
+            bound_checked += 1
+            if pk["stack"] > pk["frames"] * hmax or pk["locals"] > pk["frames"] * lmax:
+                bound_failed += 1
+                ctx.violation({"kind": "correspondence-broken",
+                               "correspondence": "C16_run_space_bound (|stack| <= frames*Hmax, |locals| <= frames*Lmax) vs the real executor's profiled peaks",
+                               "shape": name, "iterations": mm, "peaks": pk, "Hmax": hmax, "Lmax": lmax}, no_input=True)
+        ctx.cov["space_bound_theorem_checked_on_real_runs"] = bound_checked
+        ctx.cov["space_bound_theorem_failed_on_real_runs"] = bound_failed
+        ctx.cov["verifier_bounds_per_shape"] = {k: {"Hmax": v[0], "Lmax": v[1]} for k, v in bounds.items()}
     ctx.cov["tail_recursive_programs_verified"] = tv_ok
     ctx.cov["tail_recursive_programs_rejected"] = tv_rejected
     ctx.cov.update({
